@@ -1,6 +1,1346 @@
-//! C18 — not implemented yet.
+//! C18 — Signature verifiers accept exactly genuine, well-formed assertions.
+//!
+//! Sub-checks
+//! * `webauthn`   genuine WebAuthn assertions produced independently (`p256`, `sha2`), every
+//!                re-signed semantic variant (flags, type, challenge, authenticator-data length,
+//!                client-data length, wrong signed message) and unsigned single-bit corruptions,
+//!                through `VerifierLib.webauthn_verify` (library) and the example verifier contract.
+//! * `ed25519`    genuine Ed25519 signatures (`ed25519-dalek`) and corruptions, library + example.
+//! * `b64-lattice` / `b64-random`  encoder differential against the `base64` crate and an own
+//!                RFC 4648 §5 encoder.
+//! * `extract`    `extract_from_bytes` against slice semantics.
+//!
+//! Oracle: accepted ⇔ genuine ∧ all stated conditions; rejection = `false` or any failure.
+//! Domain (DESIGN §7): 32-byte payloads, flat client-data JSON without escapes, client data
+//! ≤ 1024 bytes (`CLIENT_DATA_MAX_LEN`, "exceeds" ⇒ 1024 itself is accepted), low-S signatures.
+
+use crate::contracts::c18::verifier_lib::{VerifierLib, B64_DST, B64_SENTINEL};
 use crate::engine::*;
+use crate::envx;
+use crate::examples::ed25519_verifier::contract::Ed25519VerifierContract;
+use crate::examples::webauthn_verifier::contract::WebauthnVerifierContract;
+use crate::gen::pick;
+use base64::Engine as _;
+use p256::ecdsa::signature::Signer as _;
+use proptest::prelude::*;
+use serde::{Deserialize, Serialize};
+use serde_json::json;
+use sha2::{Digest, Sha256};
+use soroban_sdk::xdr::ToXdr;
+use soroban_sdk::{Address, Bytes, BytesN, Env};
+use stellar_accounts::verifiers::webauthn::WebAuthnSigData;
+
+const UP: u8 = 0x01;
+const UV: u8 = 0x04;
+const BE: u8 = 0x08;
+const BS: u8 = 0x10;
+/// documented bound (`CLIENT_DATA_MAX_LEN`): "client data exceeds the maximum allowed length" is refused
+const CD_MAX: usize = 1024;
+const AUTH_MIN: usize = 37;
+
+// ------------------------------------------------------------------ reference encoders
+
+/// own RFC 4648 §5 encoder (bit-stream formulation, no padding)
+pub fn ref_b64url(src: &[u8]) -> Vec<u8> {
+    let mut alphabet: Vec<u8> = vec![];
+    alphabet.extend(b'A'..=b'Z');
+    alphabet.extend(b'a'..=b'z');
+    alphabet.extend(b'0'..=b'9');
+    alphabet.push(b'-');
+    alphabet.push(b'_');
+    let mut out = Vec::with_capacity(src.len() * 4 / 3 + 2);
+    let (mut acc, mut nbits) = (0u32, 0u32);
+    for &b in src {
+        acc = (acc << 8) | b as u32;
+        nbits += 8;
+        while nbits >= 6 {
+            nbits -= 6;
+            out.push(alphabet[((acc >> nbits) & 63) as usize]);
+        }
+        acc &= (1 << nbits) - 1;
+    }
+    if nbits > 0 {
+        out.push(alphabet[((acc << (6 - nbits)) & 63) as usize]);
+    }
+    out
+}
+
+fn crate_b64url(src: &[u8]) -> Vec<u8> {
+    base64::engine::general_purpose::URL_SAFE_NO_PAD.encode(src).into_bytes()
+}
+fn crate_b64std(src: &[u8]) -> String {
+    base64::engine::general_purpose::STANDARD_NO_PAD.encode(src)
+}
+
+fn sha256(b: &[u8]) -> [u8; 32] {
+    let mut h = Sha256::new();
+    h.update(b);
+    h.finalize().into()
+}
+
+// ------------------------------------------------------------------ WebAuthn case
+
+#[derive(Clone, Debug, Serialize, Deserialize, PartialEq)]
+pub enum Extra {
+    Origin(String),
+    CrossOrigin(bool),
+    /// unknown string member (name index into `UNKNOWN_NAMES`, value)
+    Str(u8, String),
+    /// unknown boolean member
+    Bool(u8, bool),
+}
+
+const UNKNOWN_NAMES: &[&str] = &[
+    "other_keys_can_be_added_here",
+    "topOrigin",
+    "androidPackageName",
+    "x",
+    "Type",
+    "types",
+    "typ",
+    "Challenge",
+    "challeng",
+    "challenge2",
+    "",
+];
+const PAD_NAME: &str = "pad";
+
+#[derive(Clone, Copy, Debug, Serialize, Deserialize, PartialEq)]
+pub enum LenSel {
+    /// no padding member
+    Natural,
+    /// padded to exactly this many bytes (≤ 1024)
+    Pad(u16),
+}
+
+#[derive(Clone, Copy, Debug, Serialize, Deserialize, PartialEq)]
+pub enum Part {
+    Payload,
+    Key,
+    Sig,
+    Auth,
+    AuthFlags,
+    ClientAny,
+    ClientType,
+    ClientChallenge,
+}
+
+#[derive(Clone, Copy, Debug, Serialize, Deserialize)]
+pub struct Flip {
+    pub part: Part,
+    pub pos: u16,
+    pub bit: u8,
+}
+
+#[derive(Clone, Debug, Serialize, Deserialize)]
+pub struct WaCase {
+    pub payload: Vec<u8>,
+    pub other_payload: Vec<u8>,
+    pub key_seed: Vec<u8>,
+    pub rp_hash: Vec<u8>,
+    /// flag bits other than UP/UV/BE/BS (RFU, AT, ED) — ignored by the documented checks
+    pub flags_rest: u8,
+    /// backup state of the genuine assertion: 0 BE=0,BS=0; 1 BE=1,BS=0; 2 BE=1,BS=1
+    pub backup: u8,
+    pub counter: u32,
+    pub ext: Vec<u8>,
+    pub extras: Vec<Extra>,
+    pub order: Vec<u16>,
+    pub ws: u8,
+    pub len: LenSel,
+    pub pad_fill: u8,
+    pub cred_id: Vec<u8>,
+    pub over: u16,
+    pub short_auth: Vec<u16>,
+    pub short_payload: u16,
+    pub trunc: u16,
+    pub flips: Vec<Flip>,
+}
+
+fn json_text(max: usize) -> BoxedStrategy<String> {
+    // printable ASCII without '"' and '\\' (no escape sequences, DESIGN §7)
+    let chars: Vec<char> = (0x20u8..0x7f).filter(|c| *c != b'"' && *c != b'\\').map(|c| c as char).collect();
+    proptest::collection::vec(proptest::sample::select(chars), 0..=max).prop_map(|v| v.into_iter().collect()).boxed()
+}
+
+fn extra_strategy() -> BoxedStrategy<Extra> {
+    prop_oneof![
+        3 => prop_oneof![
+            2 => Just("https://example.com".to_string()),
+            1 => Just("http://localhost:3000".to_string()),
+            2 => json_text(60),
+        ].prop_map(Extra::Origin),
+        3 => any::<bool>().prop_map(Extra::CrossOrigin),
+        2 => (0u8..UNKNOWN_NAMES.len() as u8, prop_oneof![
+            3 => json_text(40),
+            1 => Just("webauthn.create".to_string()),
+            1 => Just("do not compare clientDataJSON against a template. See https://goo.gl/yabPex".to_string()),
+        ]).prop_map(|(n, s)| Extra::Str(n, s)),
+        1 => (0u8..UNKNOWN_NAMES.len() as u8, any::<bool>()).prop_map(|(n, b)| Extra::Bool(n, b)),
+    ]
+    .boxed()
+}
+
+fn bytes_n(n: usize) -> BoxedStrategy<Vec<u8>> {
+    prop_oneof![
+        8 => proptest::collection::vec(any::<u8>(), n..=n),
+        1 => (any::<u8>()).prop_map(move |b| vec![b; n]),
+        1 => prop_oneof![Just(0u8), Just(0xffu8), Just(0xfbu8)].prop_map(move |b| vec![b; n]),
+    ]
+    .boxed()
+}
+
+fn flip_strategy() -> BoxedStrategy<Vec<Flip>> {
+    fn f(part: Part) -> BoxedStrategy<Flip> {
+        (any::<u16>(), 0u8..8).prop_map(move |(pos, bit)| Flip { part, pos, bit }).boxed()
+    }
+    (
+        proptest::collection::vec(f(Part::Payload), 2),
+        proptest::collection::vec(f(Part::Key), 2),
+        proptest::collection::vec(f(Part::Sig), 2),
+        proptest::collection::vec(f(Part::Auth), 2),
+        f(Part::AuthFlags),
+        proptest::collection::vec(f(Part::ClientAny), 2),
+        f(Part::ClientType),
+        f(Part::ClientChallenge),
+    )
+        .prop_map(|(a, b, c, d, e, g, h, i)| {
+            let mut v = vec![];
+            v.extend(a);
+            v.extend(b);
+            v.extend(c);
+            v.extend(d);
+            v.push(e);
+            v.extend(g);
+            v.push(h);
+            v.push(i);
+            v
+        })
+        .boxed()
+}
+
+fn wa_strategy(_tier: Tier) -> BoxedStrategy<WaCase> {
+    let len = prop_oneof![
+        3 => Just(LenSel::Natural),
+        2 => (300u16..1000).prop_map(LenSel::Pad),
+        1 => (1000u16..=1021).prop_map(LenSel::Pad),
+        1 => Just(LenSel::Pad(1022)),
+        2 => Just(LenSel::Pad(1023)),
+        3 => Just(LenSel::Pad(1024)),
+    ];
+    let a = (bytes_n(32), bytes_n(32), bytes_n(32), bytes_n(32), any::<u8>(), 0u8..3, prop_oneof![Just(0u32), Just(u32::MAX), any::<u32>()]);
+    let b = (
+        proptest::collection::vec(any::<u8>(), 0..=60),
+        proptest::collection::vec(extra_strategy(), 0..=4),
+        proptest::collection::vec(any::<u16>(), 8),
+        0u8..4,
+        len,
+        any::<u8>(),
+        proptest::collection::vec(any::<u8>(), 0..=40),
+    );
+    let c = (any::<u16>(), proptest::collection::vec(any::<u16>(), 2), any::<u16>(), any::<u16>(), flip_strategy());
+    (a, b, c)
+        .prop_map(|((payload, other_payload, key_seed, rp_hash, fr, backup, counter), (ext, extras, order, ws, len, pad_fill, cred_id), (over, short_auth, short_payload, trunc, flips))| {
+            WaCase {
+                payload,
+                other_payload,
+                key_seed,
+                rp_hash,
+                flags_rest: fr & !(UP | UV | BE | BS),
+                backup,
+                counter,
+                ext,
+                extras,
+                order,
+                ws,
+                len,
+                pad_fill,
+                cred_id,
+                over,
+                short_auth,
+                short_payload,
+                trunc,
+                flips,
+            }
+        })
+        .boxed()
+}
+
+// ------------------------------------------------------------------ client data builder
+
+#[derive(Clone, Debug)]
+enum Member {
+    Type,
+    Challenge,
+    Extra(usize),
+    Pad,
+}
+
+struct Layout<'a> {
+    members: Vec<Member>,
+    extras: &'a [Extra],
+    ws: u8,
+    fill: u8,
+}
+
+#[derive(Default, Clone)]
+struct Built {
+    bytes: Vec<u8>,
+    /// byte span of the type value (without quotes) and of the challenge value
+    type_span: (usize, usize),
+    chal_span: (usize, usize),
+}
+
+impl<'a> Layout<'a> {
+    fn new(case: &'a WaCase) -> Layout<'a> {
+        // drop duplicate member names (a JSON object with duplicate names is outside the flat domain)
+        let mut names: Vec<String> = vec!["type".into(), "challenge".into(), PAD_NAME.into()];
+        let mut members = vec![Member::Type, Member::Challenge];
+        for (i, x) in case.extras.iter().enumerate() {
+            let name = extra_name(x);
+            if names.iter().any(|n| n == name) {
+                continue;
+            }
+            names.push(name.to_string());
+            members.push(Member::Extra(i));
+        }
+        members.push(Member::Pad);
+        // Fisher–Yates driven by generated selectors
+        let n = members.len();
+        for i in 0..n {
+            let sel = case.order.get(i).copied().unwrap_or(0);
+            let j = i + pick(sel, n - i);
+            members.swap(i, j);
+        }
+        Layout { members, extras: &case.extras, ws: case.ws, fill: case.pad_fill }
+    }
+
+    fn render(&self, ty: &str, challenge: &str, pad: Option<usize>) -> Built {
+        let (open, colon, comma, close): (&str, &str, &str, &str) = match self.ws {
+            0 => ("{", ":", ",", "}"),
+            1 => ("{", ": ", ", ", "}"),
+            2 => ("{\n    ", ": ", ",\n    ", "\n}"),
+            _ => ("{ ", " : ", " , ", " }\r\n"),
+        };
+        let mut b = Built::default();
+        let out = &mut b.bytes;
+        out.extend_from_slice(open.as_bytes());
+        let mut first = true;
+        for m in &self.members {
+            if matches!(m, Member::Pad) && pad.is_none() {
+                continue;
+            }
+            if !first {
+                out.extend_from_slice(comma.as_bytes());
+            }
+            first = false;
+            let key = |out: &mut Vec<u8>, k: &str| {
+                out.push(b'"');
+                out.extend_from_slice(k.as_bytes());
+                out.push(b'"');
+                out.extend_from_slice(colon.as_bytes());
+            };
+            let strv = |out: &mut Vec<u8>, v: &str| -> (usize, usize) {
+                out.push(b'"');
+                let s = out.len();
+                out.extend_from_slice(v.as_bytes());
+                let e = out.len();
+                out.push(b'"');
+                (s, e)
+            };
+            match m {
+                Member::Type => {
+                    key(out, "type");
+                    b.type_span = strv(out, ty);
+                }
+                Member::Challenge => {
+                    key(out, "challenge");
+                    b.chal_span = strv(out, challenge);
+                }
+                Member::Pad => {
+                    key(out, PAD_NAME);
+                    let n = pad.unwrap_or(0);
+                    let filler: Vec<u8> = (0..n).map(|i| b'a' + ((self.fill as usize + i) % 26) as u8).collect();
+                    out.push(b'"');
+                    out.extend_from_slice(&filler);
+                    out.push(b'"');
+                }
+                Member::Extra(i) => {
+                    let x = &self.extras[*i];
+                    key(out, extra_name(x));
+                    match x {
+                        Extra::Origin(s) | Extra::Str(_, s) => {
+                            strv(out, s);
+                        }
+                        Extra::CrossOrigin(v) | Extra::Bool(_, v) => out.extend_from_slice(if *v { b"true" } else { b"false" }),
+                    }
+                }
+            }
+        }
+        out.extend_from_slice(close.as_bytes());
+        b
+    }
+
+    /// client data with the given type and challenge; `target = Some(n)` pads to exactly n bytes
+    /// (None when n is smaller than the unpadded text with an empty pad member).
+    fn build(&self, ty: &str, challenge: &str, target: Option<usize>) -> Option<Built> {
+        match target {
+            None => Some(self.render(ty, challenge, None)),
+            Some(t) => {
+                let base = self.render(ty, challenge, Some(0)).bytes.len();
+                if t < base {
+                    return None;
+                }
+                let b = self.render(ty, challenge, Some(t - base));
+                debug_assert_eq!(b.bytes.len(), t);
+                Some(b)
+            }
+        }
+    }
+}
+
+fn extra_name(x: &Extra) -> &'static str {
+    match x {
+        Extra::Origin(_) => "origin",
+        Extra::CrossOrigin(_) => "crossOrigin",
+        Extra::Str(n, _) | Extra::Bool(n, _) => UNKNOWN_NAMES[*n as usize % UNKNOWN_NAMES.len()],
+    }
+}
+
+// ------------------------------------------------------------------ independent signer
+
+struct P256Signer {
+    sk: p256::ecdsa::SigningKey,
+    pk: [u8; 65],
+}
+
+impl P256Signer {
+    /// all key material is derived from generated bytes; an out-of-range scalar (0 or ≥ n, e.g. after
+    /// shrinking to all-zero) is re-derived by hashing
+    fn from_seed(seed: &[u8]) -> P256Signer {
+        let mut cand = [0u8; 32];
+        for (i, b) in seed.iter().take(32).enumerate() {
+            cand[i] = *b;
+        }
+        let mut ctr = 0u8;
+        let sk = loop {
+            if let Ok(k) = p256::ecdsa::SigningKey::from_slice(&cand) {
+                break k;
+            }
+            let mut h = Sha256::new();
+            h.update(seed);
+            h.update([ctr]);
+            cand = h.finalize().into();
+            ctr = ctr.wrapping_add(1);
+        };
+        let ep = sk.verifying_key().to_encoded_point(false);
+        let mut pk = [0u8; 65];
+        pk.copy_from_slice(ep.as_bytes());
+        P256Signer { sk, pk }
+    }
+    /// ES256 (ECDSA P-256 with SHA-256, RFC 6979 deterministic) over `msg`; returns (low-S, high-S) encodings
+    fn sign(&self, msg: &[u8]) -> ([u8; 64], [u8; 64]) {
+        let sig: p256::ecdsa::Signature = self.sk.sign(msg);
+        let low = sig.normalize_s().unwrap_or(sig);
+        let (r, s) = low.split_scalars();
+        let neg_s = -*s;
+        let high = p256::ecdsa::Signature::from_scalars(r.to_bytes(), neg_s.to_bytes()).expect("non-zero scalars");
+        let mut a = [0u8; 64];
+        a.copy_from_slice(&low.to_bytes());
+        let mut b = [0u8; 64];
+        b.copy_from_slice(&high.to_bytes());
+        (a, b)
+    }
+    /// the message a WebAuthn authenticator signs: authenticatorData ‖ SHA-256(clientDataJSON)
+    fn assertion(&self, auth: &[u8], cd: &[u8]) -> [u8; 64] {
+        let mut m = auth.to_vec();
+        m.extend_from_slice(&sha256(cd));
+        self.sign(&m).0
+    }
+}
+
+// ------------------------------------------------------------------ probe
+
+struct Wa<'a> {
+    e: Env,
+    lib: Address,
+    ex: Address,
+    ctx: &'a mut Ctx,
+}
+
+#[derive(Clone)]
+struct Assertion {
+    payload: Vec<u8>,
+    key: [u8; 65],
+    sig: [u8; 64],
+    auth: Vec<u8>,
+    cd: Vec<u8>,
+}
+
+impl<'a> Wa<'a> {
+    fn lib_accepts(&mut self, a: &Assertion) -> (bool, String) {
+        let e = &self.e;
+        let sd = WebAuthnSigData {
+            signature: BytesN::from_array(e, &a.sig),
+            authenticator_data: Bytes::from_slice(e, &a.auth),
+            client_data: Bytes::from_slice(e, &a.cd),
+        };
+        let r = envx::call_t::<bool>(e, &self.lib, "webauthn_verify", args![e; Bytes::from_slice(e, &a.payload), BytesN::from_array(e, &a.key), sd]);
+        self.ctx.op(r.is_ok());
+        match r {
+            Ok(true) => (true, "true".into()),
+            Ok(false) => (false, "false".into()),
+            Err(s) => (false, s),
+        }
+    }
+    fn ex_accepts_raw(&mut self, payload: &[u8], key_data: &[u8], sig_data: &Bytes) -> (bool, String) {
+        let e = &self.e;
+        let r = envx::call_t::<bool>(e, &self.ex, "verify", args![e; Bytes::from_slice(e, payload), Bytes::from_slice(e, key_data), sig_data.clone()]);
+        self.ctx.op(r.is_ok());
+        match r {
+            Ok(true) => (true, "true".into()),
+            Ok(false) => (false, "false".into()),
+            Err(s) => (false, s),
+        }
+    }
+    fn xdr(&self, a: &Assertion) -> Bytes {
+        let e = &self.e;
+        WebAuthnSigData {
+            signature: BytesN::from_array(e, &a.sig),
+            authenticator_data: Bytes::from_slice(e, &a.auth),
+            client_data: Bytes::from_slice(e, &a.cd),
+        }
+        .to_xdr(e)
+    }
+    fn ex_accepts(&mut self, a: &Assertion, cred: &[u8]) -> (bool, String) {
+        let mut kd = a.key.to_vec();
+        kd.extend_from_slice(cred);
+        let sd = self.xdr(a);
+        self.ex_accepts_raw(&a.payload, &kd, &sd)
+    }
+
+    /// submit to both targets and compare with the expectation
+    fn expect(&mut self, a: &Assertion, cred: &[u8], want: bool, family: &str, label: &str) -> R {
+        let (la, lmsg) = self.lib_accepts(a);
+        let (xa, xmsg) = self.ex_accepts(a, cred);
+        let describe = |a: &Assertion| {
+            format!(
+                "payload={} key={} sig={} auth={} client_data={:?}",
+                hex::encode(&a.payload),
+                hex::encode(a.key),
+                hex::encode(a.sig),
+                hex::encode(&a.auth),
+                String::from_utf8_lossy(&a.cd)
+            )
+        };
+        if want {
+            ensure!(la, format!("C18/webauthn.verify/genuine-rejected/{family}"), "{label}: genuine well-formed assertion refused by the library ({lmsg}); {}", describe(a));
+            ensure!(xa, format!("C18/webauthn-verifier.verify/genuine-rejected/{family}"), "{label}: genuine well-formed assertion refused by the example contract ({xmsg}); {}", describe(a));
+            self.ctx.class("wa_accepted");
+            self.ctx.class(&format!("wa_accepted:{family}"));
+        } else {
+            ensure!(!la, format!("C18/webauthn.verify/accepted-bad-{family}"), "{label}: must be refused but the library returned true; {}", describe(a));
+            ensure!(!xa, format!("C18/webauthn-verifier.verify/accepted-bad-{family}"), "{label}: must be refused but the example contract returned true; {}", describe(a));
+            self.ctx.class("wa_rejected");
+            self.ctx.class(&format!("wa_rejected:{family}"));
+        }
+        Ok(())
+    }
+}
+
+fn auth_data(case: &WaCase, flags: u8) -> Vec<u8> {
+    let mut v = Vec::with_capacity(37 + case.ext.len());
+    let mut rp = case.rp_hash.clone();
+    rp.resize(32, 0);
+    v.extend_from_slice(&rp);
+    v.push(flags);
+    v.extend_from_slice(&case.counter.to_be_bytes());
+    v.extend_from_slice(&case.ext);
+    v
+}
+
+fn flags_ok(f: u8) -> bool {
+    let (up, uv, be, bs) = (f & UP != 0, f & UV != 0, f & BE != 0, f & BS != 0);
+    up && uv && !(!be && bs)
+}
+
+pub fn run_wa(case: &WaCase, ctx: &mut Ctx) -> R {
+    let e = envx::new_env(100, envx::BIG_TTL);
+    let lib = e.register(VerifierLib, ());
+    let ex = e.register(WebauthnVerifierContract, ());
+    let mut w = Wa { e, lib, ex, ctx };
+
+    let mut payload = case.payload.clone();
+    payload.resize(32, 0);
+    let mut other = case.other_payload.clone();
+    other.resize(32, 0);
+    if other == payload {
+        other[31] ^= 1;
+    }
+    let signer = P256Signer::from_seed(&case.key_seed);
+    let layout = Layout::new(case);
+    let cred = &case.cred_id[..];
+
+    let gflags = case.flags_rest | UP | UV | [0, BE, BE | BS][case.backup as usize % 3];
+    let gauth = auth_data(case, gflags);
+    let challenge = String::from_utf8(crate_b64url(&payload)).expect("ascii");
+    ensure!(challenge.as_bytes() == ref_b64url(&payload).as_slice(), "C18/harness/reference-encoders-disagree", "base64 crate vs own encoder on {}", hex::encode(&payload));
+    let target = match case.len {
+        LenSel::Natural => None,
+        LenSel::Pad(n) => Some((n as usize).min(CD_MAX)),
+    };
+    // variants keep the length class of the genuine assertion, so that only the stated condition decides
+    let build = |ty: &str, ch: &str, t: Option<usize>| -> Built {
+        match layout.build(ty, ch, t) {
+            Some(b) => b,
+            None => layout.render(ty, ch, None),
+        }
+    };
+    let mk = |auth: &[u8], cd: &[u8]| -> Assertion { Assertion { payload: payload.clone(), key: signer.pk, sig: signer.assertion(auth, cd), auth: auth.to_vec(), cd: cd.to_vec() } };
+
+    // ---- the genuine assertion
+    let gbuilt = build("webauthn.get", &challenge, target);
+    let gcd = gbuilt.bytes.clone();
+    if gcd.len() > CD_MAX {
+        // cannot happen with the generator's bounds (natural text ≤ ~600 bytes); keep the run honest
+        bail!("C18/harness/genuine-out-of-domain", "generated client data of {} bytes", gcd.len());
+    }
+    let genuine = mk(&gauth, &gcd);
+    w.expect(&genuine, cred, true, "genuine", "genuine assertion")?;
+    w.ctx.class(match gcd.len() {
+        1024 => "wa_len_1024",
+        1023 => "wa_len_1023",
+        1000..=1022 => "wa_len_1000_1022",
+        300..=999 => "wa_len_300_999",
+        _ => "wa_len_natural",
+    });
+    w.ctx.class(&format!("wa_ws_{}", case.ws));
+    w.ctx.class_n("wa_extra_members", (layout.members.len() - 3) as u64);
+    // credential id suffix of key_data is documented as client-side only: still genuine
+    if !cred.is_empty() {
+        let mut c2 = cred.to_vec();
+        c2[0] ^= 0x80;
+        let (xa, xmsg) = w.ex_accepts(&genuine, &c2);
+        ensure!(xa, "C18/webauthn-verifier.verify/genuine-rejected/credential-id", "same key with another credential id suffix refused ({xmsg})");
+        w.ctx.class("wa_cred_id_changed");
+    }
+    // the same key_data without the 65-byte prefix being complete must be refused
+    {
+        let sd = w.xdr(&genuine);
+        let cut = pick(case.short_payload, 65);
+        let (xa, _) = w.ex_accepts_raw(&payload, &signer.pk[..cut], &sd);
+        ensure!(!xa, "C18/webauthn-verifier.verify/accepted-bad-key/short-key-data", "key_data of {cut} bytes accepted");
+        w.ctx.class("wa_rejected:short_key_data");
+    }
+
+    // ---- (a) re-signed semantic variants
+    // flags: all 16 combinations of UP/UV/BE/BS
+    for m in 0u8..16 {
+        let f = case.flags_rest | if m & 1 != 0 { UP } else { 0 } | if m & 2 != 0 { UV } else { 0 } | if m & 4 != 0 { BE } else { 0 } | if m & 8 != 0 { BS } else { 0 };
+        let auth = auth_data(case, f);
+        let a = mk(&auth, &gcd);
+        w.expect(&a, cred, flags_ok(f), "flags", &format!("flags {f:#04x} (UP={} UV={} BE={} BS={})", m & 1, (m >> 1) & 1, (m >> 2) & 1, (m >> 3) & 1))?;
+    }
+    // type
+    for ty in ["webauthn.get", "webauthn.create", "", "webauthn.get ", " webauthn.get", "webauthn.ge", "Webauthn.get", "webauthn.get\u{0}"] {
+        let cd = build(ty, &challenge, target).bytes;
+        if cd.len() > CD_MAX {
+            continue;
+        }
+        let a = mk(&gauth, &cd);
+        w.expect(&a, cred, ty == "webauthn.get", "type", &format!("type {ty:?}"))?;
+    }
+    // challenge
+    {
+        let std = crate_b64std(&payload);
+        let tr = 1 + pick(case.trunc, 42); // keep 1..=42 of the 43 characters
+        let mut chals: Vec<(String, bool, &str)> = vec![
+            (challenge.clone(), true, "correct"),
+            (format!("{challenge}="), false, "padded"),
+            (format!("{challenge}A"), false, "extended"),
+            (String::from_utf8(crate_b64url(&other)).expect("ascii"), false, "other-payload"),
+            (challenge[..tr].to_string(), false, "truncated"),
+            (challenge[..42].to_string(), false, "truncated-by-one"),
+            (String::new(), false, "empty"),
+            (hex::encode(&payload), false, "hex"),
+        ];
+        if std != challenge {
+            chals.push((std, false, "standard-alphabet"));
+            w.ctx.class("wa_std_alphabet_differs");
+        }
+        for (ch, ok, name) in chals {
+            let cd = build("webauthn.get", &ch, target).bytes;
+            if cd.len() > CD_MAX {
+                continue;
+            }
+            let a = mk(&gauth, &cd);
+            w.expect(&a, cred, ok, "challenge", &format!("challenge {name} {ch:?}"))?;
+        }
+    }
+    // authenticator data shorter than 37 bytes (flags byte, when present, is a passing one)
+    {
+        let full = auth_data(case, gflags);
+        let mut lens = vec![36usize, 33];
+        for s in &case.short_auth {
+            lens.push(pick(*s, 37));
+        }
+        lens.dedup();
+        for l in lens {
+            let auth = &full[..l.min(full.len())];
+            let a = mk(auth, &gcd);
+            w.expect(&a, cred, auth.len() >= AUTH_MIN, "auth-len", &format!("authenticator data of {} bytes", auth.len()))?;
+        }
+        // exactly 37 bytes is well-formed
+        let a = mk(&full[..37], &gcd);
+        w.expect(&a, cred, true, "auth-len", "authenticator data of 37 bytes")?;
+    }
+    // client data length around the bound
+    {
+        let over = [1026usize, 1027, 1100, 1500, 2048, 4096][pick(case.over, 6)];
+        for t in [1022usize, 1023, 1024, 1025, over] {
+            if let Some(b) = layout.build("webauthn.get", &challenge, Some(t)) {
+                let a = mk(&gauth, &b.bytes);
+                w.expect(&a, cred, t <= CD_MAX, "cd-len", &format!("client data of {t} bytes"))?;
+                if t == CD_MAX {
+                    w.ctx.class("wa_bound_exact_accepted");
+                }
+            }
+        }
+    }
+    // correctly keyed signatures over a message other than authData ‖ SHA-256(clientData)
+    {
+        let h = sha256(&gcd);
+        let mut swapped = h.to_vec();
+        swapped.extend_from_slice(&gauth);
+        let mut unhashed = gauth.clone();
+        unhashed.extend_from_slice(&gcd);
+        let mut other_auth = gauth.clone();
+        other_auth[0] ^= 1;
+        other_auth.extend_from_slice(&h);
+        let msgs: Vec<(&str, Vec<u8>)> = vec![
+            ("client-data-hash-only", h.to_vec()),
+            ("client-data-only", gcd.clone()),
+            ("authenticator-data-only", gauth.clone()),
+            ("hash-then-auth", swapped),
+            ("auth-then-raw-client-data", unhashed),
+            ("other-authenticator-data", other_auth),
+            ("payload", payload.clone()),
+        ];
+        for (name, m) in msgs {
+            let mut a = genuine.clone();
+            a.sig = signer.sign(&m).0;
+            if a.sig == genuine.sig {
+                continue;
+            }
+            w.expect(&a, cred, false, "signed-message", &format!("signature over {name}"))?;
+        }
+        // another key pair signing the right message
+        let mut seed2 = case.key_seed.clone();
+        seed2.push(1);
+        let s2 = P256Signer::from_seed(&sha256(&seed2));
+        if s2.pk != signer.pk {
+            let mut a = genuine.clone();
+            a.sig = s2.assertion(&gauth, &gcd);
+            w.expect(&a, cred, false, "key", "signed by another key")?;
+            let mut b = genuine.clone();
+            b.key = s2.pk;
+            w.expect(&b, cred, false, "key", "verified under another key")?;
+        }
+        // the malleable twin (high-S) is outside the stated domain: recorded, never asserted
+        let mut m = gauth.clone();
+        m.extend_from_slice(&h);
+        let mut a = genuine.clone();
+        a.sig = signer.sign(&m).1;
+        let (la, _) = w.lib_accepts(&a);
+        w.ctx.class(if la { "wa_high_s_accepted" } else { "wa_high_s_rejected" });
+    }
+    // payload shorter than 32 bytes
+    {
+        let l = pick(case.short_payload, 32);
+        for (name, ch) in [("challenge-of-short", String::from_utf8(crate_b64url(&payload[..l])).expect("ascii")), ("challenge-of-full", challenge.clone())] {
+            let cd = build("webauthn.get", &ch, target).bytes;
+            if cd.len() > CD_MAX {
+                continue;
+            }
+            let mut a = mk(&gauth, &cd);
+            a.payload = payload[..l].to_vec();
+            w.expect(&a, cred, false, "short-payload", &format!("payload of {l} bytes, {name}"))?;
+        }
+    }
+
+    // ---- (b) unsigned corruptions: one flipped bit, signature untouched
+    for fl in &case.flips {
+        let mut a = genuine.clone();
+        let mask = 1u8 << (fl.bit % 8);
+        let (name, at) = match fl.part {
+            Part::Payload => {
+                let i = pick(fl.pos, 32);
+                a.payload[i] ^= mask;
+                ("payload", i)
+            }
+            Part::Key => {
+                let i = pick(fl.pos, 65);
+                a.key[i] ^= mask;
+                ("key", i)
+            }
+            Part::Sig => {
+                let i = pick(fl.pos, 64);
+                a.sig[i] ^= mask;
+                ("signature", i)
+            }
+            Part::Auth => {
+                let i = pick(fl.pos, a.auth.len());
+                a.auth[i] ^= mask;
+                ("authenticator-data", i)
+            }
+            Part::AuthFlags => {
+                a.auth[32] ^= mask;
+                ("flags", 32)
+            }
+            Part::ClientAny => {
+                let i = pick(fl.pos, a.cd.len());
+                a.cd[i] ^= mask;
+                ("client-data", i)
+            }
+            Part::ClientType => {
+                let (s, e) = gbuilt.type_span;
+                let i = s + pick(fl.pos, e - s);
+                a.cd[i] ^= mask;
+                ("client-data-type", i)
+            }
+            Part::ClientChallenge => {
+                let (s, e) = gbuilt.chal_span;
+                let i = s + pick(fl.pos, e - s);
+                a.cd[i] ^= mask;
+                ("client-data-challenge", i)
+            }
+        };
+        // every corruption really changes the submitted input
+        if a.payload == genuine.payload && a.key == genuine.key && a.sig == genuine.sig && a.auth == genuine.auth && a.cd == genuine.cd {
+            bail!("C18/harness/no-op-corruption", "flip {:?} changed nothing", fl);
+        }
+        w.expect(&a, cred, false, &format!("bitflip-{name}"), &format!("bit {} of byte {at} of {name} flipped, signature untouched", fl.bit % 8))?;
+        w.ctx.class("wa_bitflip_rejected");
+    }
+    // a flipped bit of the XDR envelope handed to the example contract: recorded only
+    {
+        let sd = w.xdr(&genuine);
+        let mut raw: Vec<u8> = sd.iter().collect();
+        let i = pick(case.over, raw.len());
+        raw[i] ^= 1 << (case.pad_fill % 8);
+        let mut kd = genuine.key.to_vec();
+        kd.extend_from_slice(cred);
+        let b = Bytes::from_slice(&w.e, &raw);
+        let (xa, _) = w.ex_accepts_raw(&payload, &kd, &b);
+        w.ctx.class(if xa { "wa_xdr_flip_accepted" } else { "wa_xdr_flip_rejected" });
+    }
+
+    let c = &w.ctx;
+    let fam_rej = ["flags", "type", "challenge", "auth-len", "cd-len"].iter().all(|f| c.seen(&format!("wa_rejected:{f}")) > 0);
+    if c.seen("wa_accepted:genuine") > 0 && fam_rej && c.seen("wa_bitflip_rejected") > 0 {
+        w.ctx.nontrivial = true;
+        w.ctx.class("nontrivial");
+        w.ctx.class("wa_nontrivial");
+    }
+    Ok(())
+}
+
+// ------------------------------------------------------------------ Ed25519
+
+#[derive(Clone, Copy, Debug, Serialize, Deserialize)]
+pub enum EdPart {
+    Payload,
+    Key,
+    Sig,
+}
+#[derive(Clone, Copy, Debug, Serialize, Deserialize)]
+pub struct EdFlip {
+    pub part: EdPart,
+    pub pos: u16,
+    pub bit: u8,
+}
+#[derive(Clone, Debug, Serialize, Deserialize)]
+pub struct EdCase {
+    pub seed: Vec<u8>,
+    pub other_seed: Vec<u8>,
+    pub payload: Vec<u8>,
+    pub other_payload: Vec<u8>,
+    pub flips: Vec<EdFlip>,
+}
+
+fn ed_strategy(_tier: Tier) -> BoxedStrategy<EdCase> {
+    let payload = prop_oneof![
+        6 => bytes_n(32),
+        2 => proptest::collection::vec(any::<u8>(), 0..=100),
+        1 => proptest::collection::vec(any::<u8>(), 0..=2),
+    ];
+    fn f(part: EdPart) -> BoxedStrategy<EdFlip> {
+        (any::<u16>(), 0u8..8).prop_map(move |(pos, bit)| EdFlip { part, pos, bit }).boxed()
+    }
+    let flips = (proptest::collection::vec(f(EdPart::Payload), 3), proptest::collection::vec(f(EdPart::Key), 3), proptest::collection::vec(f(EdPart::Sig), 4)).prop_map(|(a, b, c)| {
+        let mut v = a;
+        v.extend(b);
+        v.extend(c);
+        v
+    });
+    (bytes_n(32), bytes_n(32), payload, bytes_n(32), flips).prop_map(|(seed, other_seed, payload, other_payload, flips)| EdCase { seed, other_seed, payload, other_payload, flips }).boxed()
+}
+
+struct Ed<'a> {
+    e: Env,
+    lib: Address,
+    ex: Address,
+    ctx: &'a mut Ctx,
+}
+impl<'a> Ed<'a> {
+    fn submit(&mut self, payload: &[u8], key: &[u8; 32], sig: &[u8; 64]) -> ((bool, String), (bool, String)) {
+        let e = &self.e;
+        let mut out = vec![];
+        for (c, f) in [(&self.lib, "ed25519_verify"), (&self.ex, "verify")] {
+            let r = envx::call_t::<bool>(e, c, f, args![e; Bytes::from_slice(e, payload), BytesN::from_array(e, key), BytesN::from_array(e, sig)]);
+            self.ctx.ops += 1;
+            if r.is_ok() {
+                self.ctx.ops_ok += 1;
+            }
+            out.push(match r {
+                Ok(true) => (true, "true".to_string()),
+                Ok(false) => (false, "false".to_string()),
+                Err(s) => (false, s),
+            });
+        }
+        let x = out.pop().unwrap();
+        let l = out.pop().unwrap();
+        (l, x)
+    }
+    fn expect(&mut self, payload: &[u8], key: &[u8; 32], sig: &[u8; 64], want: bool, family: &str, label: &str) -> R {
+        let ((la, lm), (xa, xm)) = self.submit(payload, key, sig);
+        let d = format!("payload={} key={} sig={}", hex::encode(payload), hex::encode(key), hex::encode(sig));
+        if want {
+            ensure!(la, format!("C18/ed25519.verify/genuine-rejected/{family}"), "{label}: valid signature refused by the library ({lm}); {d}");
+            ensure!(xa, format!("C18/ed25519-verifier.verify/genuine-rejected/{family}"), "{label}: valid signature refused by the example contract ({xm}); {d}");
+            self.ctx.class("ed_accepted");
+        } else {
+            ensure!(!la, format!("C18/ed25519.verify/accepted-bad-{family}"), "{label}: must be refused but the library returned true; {d}");
+            ensure!(!xa, format!("C18/ed25519-verifier.verify/accepted-bad-{family}"), "{label}: must be refused but the example contract returned true; {d}");
+            self.ctx.class("ed_rejected");
+            self.ctx.class(&format!("ed_rejected:{family}"));
+        }
+        Ok(())
+    }
+}
+
+fn ed_key(seed: &[u8]) -> ed25519_dalek::SigningKey {
+    let mut s = [0u8; 32];
+    for (i, b) in seed.iter().take(32).enumerate() {
+        s[i] = *b;
+    }
+    ed25519_dalek::SigningKey::from_bytes(&s)
+}
+
+pub fn run_ed(case: &EdCase, ctx: &mut Ctx) -> R {
+    use ed25519_dalek::Signer as _;
+    let e = envx::new_env(100, envx::BIG_TTL);
+    let lib = e.register(VerifierLib, ());
+    let ex = e.register(Ed25519VerifierContract, ());
+    let mut w = Ed { e, lib, ex, ctx };
+    let sk = ed_key(&case.seed);
+    let pk: [u8; 32] = sk.verifying_key().to_bytes();
+    let payload = &case.payload[..];
+    let sig: [u8; 64] = sk.sign(payload).to_bytes();
+    w.expect(payload, &pk, &sig, true, "genuine", "genuine signature")?;
+    w.ctx.class(match payload.len() {
+        32 => "ed_payload_32",
+        0 => "ed_payload_empty",
+        _ => "ed_payload_other_len",
+    });
+
+    // other key pair
+    let sk2 = ed_key(&case.other_seed);
+    let pk2: [u8; 32] = sk2.verifying_key().to_bytes();
+    if pk2 != pk {
+        let sig2: [u8; 64] = sk2.sign(payload).to_bytes();
+        w.expect(payload, &pk, &sig2, false, "key", "signed by another key")?;
+        w.expect(payload, &pk2, &sig, false, "key", "verified under another key")?;
+        w.expect(payload, &pk2, &sig2, true, "genuine", "second key pair")?;
+    }
+    // another payload
+    let mut other = case.other_payload.clone();
+    if other == payload {
+        other.push(0);
+    }
+    let sig_o: [u8; 64] = sk.sign(&other).to_bytes();
+    w.expect(payload, &pk, &sig_o, false, "payload", "signature of another payload")?;
+    w.expect(&other, &pk, &sig, false, "payload", "another payload under the genuine signature")?;
+    // length changes
+    let mut longer = payload.to_vec();
+    longer.push(0);
+    w.expect(&longer, &pk, &sig, false, "payload", "payload extended by a zero byte")?;
+    if !payload.is_empty() {
+        w.expect(&payload[..payload.len() - 1], &pk, &sig, false, "payload", "payload truncated by one byte")?;
+    }
+    // single-bit corruptions
+    let mut flipped = 0;
+    for fl in &case.flips {
+        let mask = 1u8 << (fl.bit % 8);
+        let (mut p, mut k, mut s) = (payload.to_vec(), pk, sig);
+        let name = match fl.part {
+            EdPart::Payload => {
+                if p.is_empty() {
+                    continue;
+                }
+                let i = pick(fl.pos, p.len());
+                p[i] ^= mask;
+                "payload"
+            }
+            EdPart::Key => {
+                k[pick(fl.pos, 32)] ^= mask;
+                "key"
+            }
+            EdPart::Sig => {
+                s[pick(fl.pos, 64)] ^= mask;
+                "signature"
+            }
+        };
+        w.expect(&p, &k, &s, false, &format!("bitflip-{name}"), &format!("one bit of {name} flipped ({:?})", fl))?;
+        flipped += 1;
+    }
+    if flipped > 0 {
+        w.ctx.nontrivial = true;
+        w.ctx.class("nontrivial");
+        w.ctx.class("ed_nontrivial");
+    }
+    Ok(())
+}
+
+// ------------------------------------------------------------------ encoder differential
+
+/// 48 bytes whose encoding is the 64-character alphabet in order
+fn alphabet_bytes() -> Vec<u8> {
+    let mut v = vec![];
+    let mut i = 0u32;
+    while i < 64 {
+        let val = (i << 18) | ((i + 1) << 12) | ((i + 2) << 6) | (i + 3);
+        v.extend_from_slice(&[(val >> 16) as u8, (val >> 8) as u8, val as u8]);
+        i += 4;
+    }
+    v
+}
+
+fn check_encode(e: &Env, lib: &Address, src: &[u8], ctx: &mut Ctx, what: &str) -> R {
+    let want = ref_b64url(src);
+    let want2 = crate_b64url(src);
+    ensure!(want == want2, "C18/harness/reference-encoders-disagree", "own encoder and base64 crate disagree on {}", hex::encode(src));
+    let r = envx::call_t::<Bytes>(e, lib, "b64", args![e; Bytes::from_slice(e, src)]);
+    ctx.op(r.is_ok());
+    let got: Vec<u8> = match r {
+        Ok(b) => b.iter().collect(),
+        Err(s) => bail!(format!("C18/base64_url_encode/failed/len-mod3-{}", src.len() % 3), "{what}: encoding {} bytes failed: {s}; input {}", src.len(), hex::encode(src)),
+    };
+    ensure!(got.len() == B64_DST, "C18/harness/b64-wrapper", "wrapper returned {} bytes", got.len());
+    let n = want.len();
+    ensure!(
+        got[..n] == want[..],
+        format!("C18/base64_url_encode/differs-from-rfc4648/len-mod3-{}", src.len() % 3),
+        "{what}: input {} ({} bytes): got {:?}, RFC 4648 §5 gives {:?}",
+        hex::encode(src),
+        src.len(),
+        String::from_utf8_lossy(&got[..n]),
+        String::from_utf8_lossy(&want)
+    );
+    ensure!(
+        got[n..].iter().all(|b| *b == B64_SENTINEL),
+        format!("C18/base64_url_encode/writes-beyond-output/len-mod3-{}", src.len() % 3),
+        "{what}: input of {} bytes: bytes after the {n} encoded characters were written",
+        src.len()
+    );
+    if src.len() == 32 {
+        let mut a = [0u8; 32];
+        a.copy_from_slice(src);
+        let r = envx::call_t::<Bytes>(e, lib, "b64_32", args![e; BytesN::from_array(e, &a)]);
+        ctx.op(r.is_ok());
+        match r {
+            Ok(b) => {
+                let g: Vec<u8> = b.iter().collect();
+                ensure!(g == want, "C18/base64_url_encode/differs-from-rfc4648/exact-43", "{what}: 32→43: got {:?}, want {:?}", String::from_utf8_lossy(&g), String::from_utf8_lossy(&want));
+            }
+            Err(s) => bail!("C18/base64_url_encode/failed/exact-43", "{what}: 32-byte input into a 43-byte destination failed: {s}"),
+        }
+        ctx.class("b64_exact_43");
+    }
+    ctx.class(&format!("b64_len_mod3_{}", src.len() % 3));
+    if want.contains(&b'-') || want.contains(&b'_') {
+        ctx.class("b64_urlsafe_chars");
+    }
+    Ok(())
+}
+
+fn b64_slabs(tier: Tier) -> u64 {
+    tier.pick(65, 301)
+}
+
+/// slab = input length; deterministic contents: constant fills, alphabet-covering rotations,
+/// counting pattern and splitmix-derived pseudo-random bytes (a pure function of the length)
+fn run_b64_lattice(_tier: Tier, slab: u64, ctx: &mut Ctx, out: &mut FixedOut) -> R {
+    let len = slab as usize;
+    let e = envx::new_env(100, envx::BIG_TTL);
+    let lib = e.register(VerifierLib, ());
+    let mut inputs: Vec<(String, Vec<u8>)> = vec![];
+    for fill in [0x00u8, 0xff, 0xfb, 0xfe, 0x3e, 0x3f, 0xf8] {
+        inputs.push((format!("all-{fill:#04x}"), vec![fill; len]));
+    }
+    let ab = alphabet_bytes();
+    for rot in 0..16 {
+        inputs.push((format!("alphabet-rot{rot}"), (0..len).map(|i| ab[(rot * 3 + i) % 48]).collect()));
+    }
+    for off in [0usize, 1, 2] {
+        // misaligned walks through the alphabet-covering bytes
+        inputs.push((format!("alphabet-misaligned{off}"), (0..len).map(|i| ab[(off + i * 7) % 48]).collect()));
+    }
+    inputs.push(("counting".into(), (0..len).map(|i| i as u8).collect()));
+    inputs.push(("counting-down".into(), (0..len).map(|i| 255 - i as u8).collect()));
+    for k in 0..8u64 {
+        let mut s = 0xC18u64 ^ (slab << 20) ^ (k << 8);
+        inputs.push((format!("splitmix{k}"), (0..len).map(|_| splitmix64(&mut s) as u8).collect()));
+    }
+    if len == 0 {
+        inputs.truncate(1);
+    }
+    for (name, src) in &inputs {
+        out.evaluations += 1;
+        if let Err(v) = check_encode(&e, &lib, src, ctx, name) {
+            out.failing = Some(json!({"kind": name, "input_hex": hex::encode(src)}));
+            return Err(v);
+        }
+        if len > 0 {
+            out.nontrivial.push(hash_str(&hex::encode(src)));
+            ctx.class("nontrivial");
+            ctx.class("b64_nontrivial");
+            if out.samples.is_empty() && len == 32 {
+                out.samples.push(json!({"kind": name, "input_hex": hex::encode(src)}));
+            }
+        }
+    }
+    Ok(())
+}
+
+#[derive(Clone, Debug, Serialize, Deserialize)]
+pub struct B64Case {
+    pub items: Vec<Vec<u8>>,
+}
+
+fn b64_strategy(tier: Tier) -> BoxedStrategy<B64Case> {
+    let max = tier.pick(64usize, 300usize);
+    let byte = prop_oneof![6 => any::<u8>(), 1 => prop_oneof![Just(0xffu8), Just(0xfbu8), Just(0xfeu8), Just(0x00u8), Just(0x3eu8), Just(0x3fu8)]];
+    let item = (0..=max).prop_flat_map(move |n| proptest::collection::vec(byte.clone(), n..=n));
+    proptest::collection::vec(item, 1..=8).prop_map(|items| B64Case { items }).boxed()
+}
+
+pub fn run_b64(case: &B64Case, ctx: &mut Ctx) -> R {
+    let e = envx::new_env(100, envx::BIG_TTL);
+    let lib = e.register(VerifierLib, ());
+    let mut any_nonempty = false;
+    for it in &case.items {
+        check_encode(&e, &lib, it, ctx, "random")?;
+        any_nonempty |= !it.is_empty();
+    }
+    if any_nonempty {
+        ctx.nontrivial = true;
+        ctx.class("nontrivial");
+        ctx.class("b64_nontrivial");
+    }
+    Ok(())
+}
+
+// ------------------------------------------------------------------ extract_from_bytes
+
+#[derive(Clone, Copy, Debug, Serialize, Deserialize)]
+pub enum Pos {
+    Abs(u32),
+    /// data.len() + δ
+    Len(i8),
+    /// start + N + δ (end bound only; for the start bound: N + δ)
+    Fit(i8),
+    Huge(u32),
+}
+
+#[derive(Clone, Debug, Serialize, Deserialize)]
+pub struct ExCase {
+    pub data: Vec<u8>,
+    pub n_sel: u16,
+    /// 0 `a..b`, 1 `a..=b`, 2 `a..`, 3 `..b`, 4 `..=b`, 5 `..`
+    pub kind: u8,
+    pub a: Pos,
+    pub b: Pos,
+    /// when set, the data length is adjusted so that an open-ended range can fit exactly
+    pub fit_len: Option<i8>,
+}
+
+const EX_N: [usize; 6] = [1, 2, 4, 32, 64, 65];
+
+fn ex_strategy(_tier: Tier) -> BoxedStrategy<ExCase> {
+    let pos = || {
+        prop_oneof![
+            3 => (0u32..40).prop_map(Pos::Abs),
+            1 => (0u32..140).prop_map(Pos::Abs),
+            3 => (-3i8..=3).prop_map(Pos::Len),
+            4 => Just(Pos::Fit(0)),
+            4 => (-2i8..=2).prop_map(Pos::Fit),
+            1 => prop_oneof![Just(u32::MAX), Just(u32::MAX - 1), Just(1u32 << 31), any::<u32>()].prop_map(Pos::Huge),
+        ]
+    };
+    (proptest::collection::vec(any::<u8>(), 0..=140), any::<u16>(), 0u8..6, pos(), pos(), proptest::option::weighted(0.6, prop_oneof![2 => Just(0i8), 1 => 0i8..=40, 1 => -2i8..=2]))
+        .prop_map(|(data, n_sel, kind, a, b, fit_len)| ExCase { data, n_sel, kind, a, b, fit_len })
+        .boxed()
+}
+
+pub fn run_extract(case: &ExCase, ctx: &mut Ctx) -> R {
+    let e = envx::new_env(100, envx::BIG_TTL);
+    let lib = e.register(VerifierLib, ());
+    let n = EX_N[pick(case.n_sel, EX_N.len())];
+    let mut data = case.data.clone();
+    let clampi = |x: i64| -> u32 { x.clamp(0, u32::MAX as i64) as u32 };
+    // resolve the start bound first (Fit for a start bound means "N + δ")
+    let a_of = |len: usize| -> u32 {
+        match case.a {
+            Pos::Abs(x) => x,
+            Pos::Len(d) => clampi(len as i64 + d as i64),
+            Pos::Fit(d) => clampi(n as i64 + d as i64),
+            Pos::Huge(x) => x,
+        }
+    };
+    if let Some(d) = case.fit_len {
+        // make `a..` / `..` / `..=b` able to fit: len = start + N + δ
+        let start = if matches!(case.kind, 0 | 1 | 2) { a_of(data.len()).min(100) as i64 } else { 0 };
+        let want = (start + n as i64 + d as i64).clamp(0, 200) as usize;
+        data.resize(want, 0x5a);
+        for (i, b) in data.iter_mut().enumerate() {
+            if *b == 0x5a {
+                *b = (i as u8).wrapping_mul(37).wrapping_add(11);
+            }
+        }
+    }
+    let len = data.len();
+    let a = if matches!(case.kind, 0 | 1 | 2) { a_of(len) } else { 0 };
+    let b = match case.b {
+        Pos::Abs(x) => x,
+        Pos::Len(d) => clampi(len as i64 + d as i64 - if matches!(case.kind, 1 | 4) { 1 } else { 0 }),
+        Pos::Fit(d) => clampi(a as i64 + n as i64 + d as i64 - if matches!(case.kind, 1 | 4) { 1 } else { 0 }),
+        Pos::Huge(x) => x,
+    };
+    // reference: slice semantics
+    let (au, bu) = (a as usize, b as usize);
+    let sl: Option<&[u8]> = match case.kind {
+        0 => data.get(au..bu),
+        1 => {
+            if b == u32::MAX {
+                None
+            } else {
+                data.get(au..bu + 1)
+            }
+        }
+        2 => data.get(au..),
+        3 => data.get(..bu),
+        4 => {
+            if b == u32::MAX {
+                None
+            } else {
+                data.get(..bu + 1)
+            }
+        }
+        _ => Some(&data[..]),
+    };
+    let want: Option<Vec<u8>> = sl.filter(|s| s.len() == n).map(|s| s.to_vec());
+    let r = envx::call_t::<Option<Bytes>>(&e, &lib, "extract", args![&e; Bytes::from_slice(&e, &data), n as u32, case.kind as u32, a, b]);
+    ctx.op(r.is_ok());
+    let d = format!("N={n} kind={} a={a} b={b} len={len}", case.kind);
+    match (&want, &r) {
+        (Some(w), Ok(Some(g))) => {
+            let g: Vec<u8> = g.iter().collect();
+            ensure!(&g == w, "C18/extract_from_bytes/wrong-bytes", "{d}: got {} want {}", hex::encode(&g), hex::encode(w));
+            ctx.class("ex_some");
+            ctx.class(&format!("ex_some_kind{}", case.kind));
+            ctx.nontrivial = true;
+        }
+        (Some(w), Ok(None)) => bail!("C18/extract_from_bytes/none-for-in-bounds", "{d}: an in-bounds range of exactly N bytes returned None (want {})", hex::encode(w)),
+        (Some(_), Err(s)) => bail!("C18/extract_from_bytes/failed-for-in-bounds", "{d}: an in-bounds range of exactly N bytes failed: {s}"),
+        (None, Ok(Some(g))) => {
+            let g: Vec<u8> = g.iter().collect();
+            bail!("C18/extract_from_bytes/some-for-bad-range", "{d}: out-of-bounds or wrong-size range returned {}", hex::encode(g))
+        }
+        (None, Ok(None)) => {
+            let oob = match case.kind {
+                0 | 3 => bu > len,
+                1 | 4 => b == u32::MAX || bu + 1 > len,
+                _ => false,
+            };
+            ctx.class(if oob { "ex_none_out_of_bounds" } else { "ex_none_wrong_size" });
+            if oob {
+                ctx.nontrivial = true;
+            }
+        }
+        (None, Err(s)) => {
+            // documented: "None if range is out of bounds" — asserted for well-formed ranges (start ≤ end, no u32
+            // overflow) whose end lies beyond the data; for inverted ranges, a start beyond the data or an
+            // overflowing inclusive bound a failure is counted as a refusal
+            let well_formed_oob = match case.kind {
+                0 => a <= b && bu > len,
+                1 => b != u32::MAX && a <= b + 1 && bu + 1 > len,
+                3 => bu > len,
+                4 => b != u32::MAX && bu + 1 > len,
+                _ => false,
+            };
+            ensure!(!well_formed_oob, "C18/extract_from_bytes/failed-for-out-of-bounds", "{d}: documented to return None for an out-of-bounds range, but failed: {s}");
+            ctx.class("ex_failed_instead_of_none");
+        }
+    }
+    if ctx.nontrivial {
+        ctx.class("nontrivial");
+        ctx.class("ex_nontrivial");
+    }
+    Ok(())
+}
+
+// ------------------------------------------------------------------ property
 
 pub fn property() -> Property {
-    Property { id: "C18", rule: "", subs: vec![], floors: vec![], assumptions: vec![] }
+    Property {
+        id: "C18",
+        rule: "webauthn: case = (32-byte payload, P-256 seed, rpIdHash, flags, counter, 0..60 extension bytes, flat client-data JSON with generated member order / whitespace / origin / crossOrigin / unknown string+boolean members, length class natural|300..1022|1023|1024, flip positions); \
+               per case one genuine assertion is produced with p256+sha2 and ~50 re-signed variants (16 flag combinations, 8 types, 9 challenges, short authenticator data, client data 1022..1025 and beyond, wrong signed message, other key, short payload) and 13 unsigned single-bit corruptions, each through the library wrapper and the example verifier contract; \
+               non-trivial = the genuine assertion was accepted, >=1 re-signed variant was rejected in each of the families flags/type/challenge/auth-len/cd-len and >=1 bit flip was rejected. \
+               ed25519: genuine (seed, payload) accepted by library and example, other key / other payload / length change / 10 bit flips rejected; non-trivial = genuine accepted and >=1 flip rejected. \
+               b64: every length 0..=64 (thorough 300) with constant, alphabet-covering, counting and pseudo-random contents plus proptest-random inputs, byte-for-byte against base64::URL_SAFE_NO_PAD and an own RFC 4648 §5 encoder, untouched destination tail; non-trivial = non-empty input. \
+               extract: (bytes, N, range kind, state-relative bounds) against slice semantics; non-trivial = Some(..) or out-of-bounds None. distinct = distinct serialised case / input",
+        subs: vec![
+            // helpers first, so that an encoder / slicing defect is reported at its source
+            Box::new(Fixed { name: "b64-lattice", slabs: b64_slabs, run: run_b64_lattice }),
+            gen_sub::<B64Case>("b64-random", 800, 16_000, b64_strategy, run_b64),
+            gen_sub::<ExCase>("extract", 4000, 80_000, ex_strategy, run_extract),
+            gen_sub::<EdCase>("ed25519", 1200, 20_000, ed_strategy, run_ed),
+            gen_sub::<WaCase>("webauthn", 1000, 12_000, wa_strategy, run_wa),
+        ],
+        floors: vec![
+            ("wa_nontrivial", 100, 1200),
+            ("wa_len_1024", 20, 290),
+            ("wa_len_1023", 15, 190),
+            ("wa_bound_exact_accepted", 100, 1200),
+            ("wa_std_alphabet_differs", 70, 800),
+            ("wa_bitflip_rejected", 1300, 15_000),
+            ("wa_rejected:flags", 1300, 15_000),
+            ("wa_accepted:flags", 300, 3600),
+            ("ed_nontrivial", 120, 2000),
+            ("b64_len_mod3_0", 190, 2700),
+            ("b64_len_mod3_1", 190, 2700),
+            ("b64_len_mod3_2", 190, 2700),
+            ("b64_urlsafe_chars", 450, 7900),
+            ("b64_exact_43", 5, 25),
+            ("ex_some", 100, 2000),
+            ("ex_none_out_of_bounds", 90, 2000),
+        ],
+        assumptions: vec![
+            "Soroban native test host (sha256, secp256r1_verify, ed25519_verify, Bytes, XDR) is trusted",
+            "RustCrypto p256 / sha2 / ed25519-dalek and the base64 crate are the independent references",
+            "domain: 32-byte payloads (shorter must be refused, longer out of domain), flat client-data JSON without escapes or duplicate names, low-S signatures; client data of exactly 1024 bytes is within the documented bound",
+        ],
+    }
 }
